@@ -3,7 +3,7 @@
 // Case-line grammar (tokens separated by single spaces, prefix notation):
 //
 //	value := N | T | F | I<dec> | D<sci 0/1>:<float64 bits, dec>:<hex of the printed token>:<hex of the token printed with Scientific=true>
-//	       | S<cps> | A<n> value*n | H<cps of the type name> <n> (key value)*n
+//	       | S<cps> | R<cps> (a string from a raw backtick literal) | A<n> value*n | H<cps of the type name> <n> (key value)*n
 //	key   := k<cps> (symbol key) | q<cps> (string key)
 //	cps   := "" | cp(,cp)*      cp = hex code point, or "!" for one byte that is not valid UTF-8
 //
@@ -33,6 +33,7 @@ type gv struct {
 	f    float64
 	sci  bool
 	s    string
+	raw  bool // the string came from a raw (backtick) source literal: SexpStr.backtick
 	arr  []*gv
 	tn   string
 	keys []gkey
@@ -92,7 +93,11 @@ func (v *gv) input(sb *strings.Builder) {
 		}
 		fmt.Fprintf(sb, "D%d:%d:%s:%s", s, math.Float64bits(v.f), hexs([]byte(floatTok(v.f, v.sci))), hexs([]byte(floatTok(v.f, true))))
 	case 'S':
-		sb.WriteString("S" + cps(v.s))
+		if v.raw {
+			sb.WriteString("R" + cps(v.s))
+		} else {
+			sb.WriteString("S" + cps(v.s))
+		}
 	case 'A':
 		fmt.Fprintf(sb, "A%d", len(v.arr))
 		for _, e := range v.arr {
@@ -156,6 +161,9 @@ func (v *gv) sexp(env *zygo.Zlisp) (zygo.Sexp, error) {
 	case 'D':
 		return &zygo.SexpFloat{Val: v.f, Scientific: v.sci}, nil
 	case 'S':
+		if v.raw {
+			return rawString(env, v.s)
+		}
 		return &zygo.SexpStr{S: v.s}, nil
 	case 'A':
 		a := make([]zygo.Sexp, 0, len(v.arr))
@@ -185,6 +193,29 @@ func (v *gv) sexp(env *zygo.Zlisp) (zygo.Sexp, error) {
 	return nil, fmt.Errorf("bad kind %c", v.kind)
 }
 
+// isRaw: the string carries the parser's raw-literal flag (unexported; the printer shows it:
+// a raw string prints between backticks, any other between double quotes).
+func isRaw(s *zygo.SexpStr) bool {
+	return strings.HasPrefix(s.SexpString(nil), "`")
+}
+
+// rawString makes a string the only way a raw one can be made: by reading a backtick literal.
+func rawString(env *zygo.Zlisp, s string) (zygo.Sexp, error) {
+	if strings.Contains(s, "`") {
+		return nil, fmt.Errorf("a raw literal cannot contain a backtick")
+	}
+	x, err := env.EvalString("`" + s + "`")
+	if err != nil {
+		env.Clear()
+		return nil, err
+	}
+	str, ok := x.(*zygo.SexpStr)
+	if !ok || !isRaw(str) {
+		return nil, fmt.Errorf("the literal did not read as a raw string")
+	}
+	return str, nil
+}
+
 // fromSexp reads a description off a real value (used for values built from source text).
 // ok=false when the value holds something outside the modelled data (chars, symbols, int keys ...).
 func fromSexp(x zygo.Sexp) (*gv, bool) {
@@ -200,7 +231,7 @@ func fromSexp(x zygo.Sexp) (*gv, bool) {
 	case *zygo.SexpFloat:
 		return &gv{kind: 'D', f: e.Val, sci: e.Scientific}, true
 	case *zygo.SexpStr:
-		return &gv{kind: 'S', s: e.S}, true
+		return &gv{kind: 'S', s: e.S, raw: isRaw(e)}, true
 	case *zygo.SexpArray:
 		r := &gv{kind: 'A'}
 		for _, y := range e.Val {
@@ -362,9 +393,9 @@ func parseValue(toks []string, pos *int) (*gv, error) {
 		}
 		bits, err := strconv.ParseUint(p[1], 10, 64)
 		return &gv{kind: 'D', sci: p[0] == "1", f: math.Float64frombits(bits)}, err
-	case 'S':
+	case 'S', 'R':
 		s, err := parseCps(body)
-		return &gv{kind: 'S', s: s}, err
+		return &gv{kind: 'S', s: s, raw: t[0] == 'R'}, err
 	case 'A':
 		n, err := strconv.Atoi(body)
 		if err != nil {
